@@ -209,7 +209,7 @@ fn check_reports(ex: &mut Exec, obs: &Obs, what: &str, pred: &dyn Fn(&Connection
 }
 
 pub fn execute(plan: &Plan, trace: bool) -> Exec {
-    let script = compile(plan);
+    let script = rc::with_stretch(plan.base.seed, plan.base.stretch_pm, || compile(plan));
     let (mut ex, obs) = run_script(&script, trace, "C04");
     let Some(obs) = obs else { return ex };
     ex.nontrivial = true;
